@@ -217,6 +217,96 @@ class Case:
         return out
 
 
+class Twice(Case):
+    """the term TWICE in one identifier (separator styles): pre + T + between + T + suf, optionally with a doubled separator
+    directly before or after either occurrence, replacement of 1-3 words (so the word count changes and everything behind
+    the first occurrence shifts).  By construction everything outside the two spans must survive byte for byte."""
+    __slots__ = ("outer3", "gap", "between")
+
+    def __init__(self, st, lead, pre, between, suf, gap, trail, term, repl):
+        super().__init__(st, lead, pre, suf, "none", trail, term, repl, "twice")
+        sep = SEP[st]
+        self.between, self.gap = list(between), gap
+
+        def build(m1, m2):
+            segs = [[piece(st, w, False) for w in pre], m1, [piece(st, w, False) for w in between], m2,
+                    [piece(st, w, False) for w in suf]]
+            # gap = (index of the segment after which the separator is doubled) or None
+            out = ""
+            for k, seg in enumerate(segs):
+                if not seg:
+                    continue
+                if out:
+                    out += sep * 2 if gap is not None and self._last_nonempty == gap else sep
+                out += sep.join(seg)
+                self._last = k
+                self._last_nonempty = k
+            return lead + out + trail
+        self._last_nonempty = -1
+        T = [piece(st, w, False) for w in term]
+        R = [piece(st, w, False) for w in repl]
+        self._last_nonempty = -1
+        self.ident = build(T, T)
+        self._last_nonempty = -1
+        self.expected = build(R, R)
+        self._last_nonempty = -1
+        marked = build(["\x00"], ["\x01"])
+        P, rest = marked.split("\x00")
+        M, S = rest.split("\x01")
+        self.outer3 = (P, M, S)
+        self.outer = (P, S)
+        self.mid_words = list(repl)
+
+    __slots__ = ("outer3", "gap", "between", "_last", "_last_nonempty")
+
+    def local(self, obs):
+        P, M, S = self.outer3
+        if not (obs.startswith(P) and obs.endswith(S) and len(obs) >= len(P) + len(M) + len(S)):
+            return False
+        mid = obs[len(P):len(obs) - len(S)]
+        want = "".join(self.mid_words).lower()
+        i = mid.find(M)
+        while i != -1:
+            a, b = mid[:i], mid[i + len(M):]
+            ok = True
+            for x in (a, b):
+                if not x or x[0] in "_-. " or x[-1] in "_-. " or "".join(ch for ch in x if ch not in "_-. ").lower() != want:
+                    ok = False
+            if ok:
+                return True
+            i = mid.find(M, i + 1)
+        return False
+
+    def exact_spans(self, off):
+        P, M, S = self.outer3
+        t = len(self.ident) - len(P) - len(M) - len(S)
+        n = t // 2
+        return [(off + len(P), off + len(P) + n), (off + len(P) + n + len(M), off + len(P) + n + len(M) + n)]
+
+    def classes(self):
+        return {}
+
+    def describe(self):
+        d = super().describe()
+        d.update({"between_words": self.between, "doubled_after_segment": self.gap, "outside_the_terms": list(self.outer3)})
+        return d
+
+
+def twice_cases():
+    out = []
+    for st in ("snake", "kebab", "screaming_snake", "train"):
+        for lead in ("", "_"):
+            if lead and SEP[st] != "_":
+                continue
+            for pre, between, suf in itertools.product(([], ["my"]), (["x"], ["get", "item"]), ([], ["y"])):
+                for gap in (None, 0, 1, 2, 3):
+                    if gap == 0 and not pre or gap == 3 and not suf:
+                        continue
+                    for nr in (1, 2, 3):
+                        out.append(Twice(st, lead, pre, between, suf, gap, "", TERMS[2], REPLS[nr]))
+    return out
+
+
 NEAR_TERMS = [TERMS[2], TERMS[3], ["foo", "v2"]]      # the last one ends in a digit (right-hand mirror: foo_v2x)
 
 
@@ -442,6 +532,7 @@ def obs_enhanced(line, content, ctxt, c):
         return "?" + line
     P, S = c.outer
     t0, t1 = len(ctxt[0]) + len(P), len(content) - len(ctxt[1]) - len(S)
+    spans = c.exact_spans(len(ctxt[0])) if isinstance(c, Twice) else [(t0, t1)]
     edits = []
     for m in f[1:]:
         s, e, v, t = m.split(":")
@@ -451,9 +542,12 @@ def obs_enhanced(line, content, ctxt, c):
         if c.near:
             return f"?match {s}:{e} on a near-miss identifier"
         if v == t:
-            if (s, e) != (t0, t1):
-                return f"?exact match {s}:{e} is not the term's span {t0}:{t1}"
-            edits.append((s, e, c.expected[len(P):len(c.expected) - len(S)].encode()))
+            if (s, e) not in spans:
+                return f"?exact match {s}:{e} is not the term's span {spans}"
+            if isinstance(c, Twice):
+                edits.append((s, e, SEP[c.st].join(piece(c.st, w, False) for w in c.repl).encode()))
+            else:
+                edits.append((s, e, c.expected[len(P):len(c.expected) - len(S)].encode()))
         else:
             edits.append((s, e, unhex(t)))
     if not edits:
@@ -731,7 +825,7 @@ def run(ctx):
         replay_witness(ctx, name, obj, judge)
     fam = family(ctx.thorough)
     dotted = dotted_cases()
-    bad = check_generators(fam + near_cases() + dotted)
+    bad = check_generators(fam + near_cases() + dotted + twice_cases())
     if bad:
         ctx.broke("machinery", "generator labels vs reference word splitter", {"case": bad[0].describe(), "why": bad[1]})
         return
@@ -739,6 +833,9 @@ def run(ctx):
     ctx.sample({"family": fam[len(fam) // 2].describe()})
     run_cases(ctx, judge, dotted, "dotted", e2e_every=1 if ctx.thorough else 2)
     ctx.sample({"dotted": dotted[len(dotted) // 3].describe()})
+    tw = twice_cases()
+    run_cases(ctx, judge, tw, "term twice in one identifier", e2e_every=1 if ctx.thorough else 2)
+    ctx.sample({"twice": tw[len(tw) // 2].describe()})
     near = near_cases()
     run_cases(ctx, judge, near, "near-miss", e2e_every=1)
     ctx.sample({"near_miss": near[3].describe()})
